@@ -498,8 +498,10 @@ func (ps *Pieces) Expire(bytes int64, available []uint16, f func(index uint32)) 
 func (ps *Pieces) Del() {
 	ps.mu.Lock()
 	defer ps.mu.Unlock()
+	// del may temporarily release the lock, so mark the structure as
+	// deleted first in order to prevent new data from being added.
+	ps.deleted = true
 	for i := uint32(0); i < uint32(len(ps.pieces)); i++ {
 		ps.del(i, true)
 	}
-	ps.deleted = true
 }
